@@ -294,7 +294,8 @@ func (r *runner) run(ctx context.Context, w *world, p plan, pick func(n int) int
 					w.announce(w.fx.ConfigIndex-1, 0, true)
 					schedule = append(schedule, "accessnode: preceding keyper set and eon key synced")
 				}
-				if km, ok := d.msg.(*p2pmsg.DecryptionKeys); ok && rep == 0 {
+				// (the comparison with the model costs a dozen pairings: the first deliveries of a world, then every 40th)
+				if km, ok := d.msg.(*p2pmsg.DecryptionKeys); ok && rep == 0 && (w.anDeliveries <= 30 || w.anDeliveries%40 == 0) {
 					r.accessNodeLines(ctx, w, km)
 				}
 				res := w.an.DeliverMsg(ctx, d.msg)
